@@ -512,7 +512,7 @@ class C10(Prop):
         return cases
 
     def budget(self, tier):
-        return 260 if tier == "quick" else 4000
+        return 800 if tier == "quick" else 8000
 
     def corpus(self, ctx):
         out = []
